@@ -11,6 +11,8 @@ mod rv;
 mod sd;
 mod tp;
 mod tps;
+mod sws;
+mod su;
 mod rp;
 mod util;
 
@@ -82,6 +84,7 @@ fn main() {
         let line = line.unwrap();
         let f: Vec<&str> = line.split(' ').collect();
         *case_start.lock().unwrap() = std::time::Instant::now();
+        util::CASE_START_SECS.store(util::now_secs(), std::sync::atomic::Ordering::SeqCst);
         case_no.fetch_add(1, std::sync::atomic::Ordering::SeqCst);
         if f.is_empty() || f[0].is_empty() || f[0].starts_with('#') {
             println!("#");
@@ -96,6 +99,8 @@ fn main() {
             "ra" => ra::run_case(&mut servers, &f),
             "tp" => tp::run_case(&f),
             "tps" => tps::run_case(&f),
+            "sws" => sws::run_case(&f),
+            "su" => su::run_case(&f),
             "bs" => bs::run_case(&f),
             "sd" => sd::run_case(&f),
             "rv" => rv::run_case(&f),
